@@ -1,4 +1,5 @@
 import Qryn.Proofs.InternalSpec
+import Qryn.Proofs.Sort
 /-! Stable insertion sort commutes with filtering; the split between ClickHouse and the in-process engine
     (spec side: `LogQL.Sem`); the fingerprint's hashed text is injective; `GetBreakpoint`. Core only. -/
 namespace Qryn
@@ -280,14 +281,6 @@ end Qryn
 
 namespace Qryn
 open Qryn.Sql Qryn.LogQL
-
-theorem mem_sortBy {α : Type} (le : α → α → Bool) (l : List α) : ∀ z, z ∈ sortBy le l ↔ z ∈ l := by
-  induction l with
-  | nil => intro z; simp [sortBy]
-  | cons x xs ih =>
-    intro z
-    show z ∈ insertBy le x (sortBy le xs) ↔ _
-    rw [mem_insertBy, ih, List.mem_cons]
 
 namespace Read
 variable {V : Type}
